@@ -371,11 +371,14 @@ def parseFault (s : String) : Fault :=
   if s = "ser" then .ser else if s = "tx" then .tx else if s = "read" then .read
   else if s = "dec" then .dec else if s = "dect" then .dect else .none
 
-/-- response payload spec: `ok<vhex>:<k>` or `bad` -/
+/-- response payload spec: `ok<vhex>:<k>[:<status>]` or `bad[:<status>]`.  The HTTP status of the response is ignored: neither
+    the code (`decodeResponseBody` reads and deserializes whatever came back) nor the property's statement ("the response body is
+    deserialized into the supplied target") looks at it. -/
 def parseResp (s : String) : Option Target :=
   if s.startsWith "ok" then
     match (s.drop 2).toString.splitOn ":" with
     | [v, k] => some (unhex v.toList, k.toInt?.getD 0)
+    | [v, k, _status] => some (unhex v.toList, k.toInt?.getD 0)
     | _ => none
   else none
 
@@ -398,8 +401,12 @@ def parseHeader (s : String) : Option Header :=
     | [k, vs] => some (unhex k.toList, (vs.splitOn ",").map (fun v => unhex v.toList))
     | _ => none)
 
+/-- a path-parameter value of the case line: `i<int>` int, `l<int>` int64, `b<0|1>` bool, `s<hex>` string, `t<hex>` a defined
+    string type, `g<hex>` a `fmt.Stringer` — `%v` prints the last three as their text and a bool as `true`/`false` -/
 def parseVal (s : String) : Val :=
-  if s.startsWith "i" then .int ((s.drop 1).toString.toInt?.getD 0) else .str (unhex (s.drop 1).toString.toList)
+  if s.startsWith "i" ∨ s.startsWith "l" then .int ((s.drop 1).toString.toInt?.getD 0)
+  else if s.startsWith "b" then .str (if (s.drop 1).toString = "1" then "true".toList else "false".toList)
+  else .str (unhex (s.drop 1).toString.toList)
 
 def parseParams (s : String) : List (Str × Val) :=
   if s = "nil" ∨ s = "-" then [] else
